@@ -1,8 +1,109 @@
 import RbV.Basic.Codec
-/-! Driver for property C05 (line protocol → verdict). -/
-namespace RbV.Drv.C05
-open RbV.Codec
+import RbV.Ref.BS
+/-! Driver for property C05: FM-index backward search.
 
-def verdict (_toks : List String) (_out : String) : String := "bad-op unimplemented"
+`c05 <s1>/<s2>/… a:<alphabet> k:<occ rate> s:<sa sampling> m:<o|b|a> <p1>/<p2>/… => <sa> <r1>/<r2>/…`
+text = every sequence followed by `$`;  `r` = `A` | `C:lo:hi:<occ full>:<occ sampled>` | `P:lo:hi:l:<occ full>:<occ sampled>`.
+
+Verdict: every result is accepted by `checkBS` (theorem `RbV.Thm.C05.checkBS_iff`) against the printed suffix array,
+and the position lists produced by `Interval::occ` through the full and through the sampled array are, as sets,
+exactly the occurrences of the matched string. -/
+namespace RbV.Drv.C05
+open RbV.Codec RbV
+
+def sentinel : Nat := 36
+
+def textOf (seqs : List (List Nat)) : List Nat := seqs.flatMap (fun s => s ++ [sentinel])
+
+structure Obs where
+  res : BSRes
+  full : Option (List Nat)
+  samp : Option (List Nat)
+
+def parseOcc (s : String) : Option (Option (List Nat)) :=
+  if s = "!" then some none else (parseNatList s).map some
+
+def parseRes (s : String) : Option Obs :=
+  match s.splitOn ":" with
+  | ["A"] => some ⟨.absent, some [], some []⟩
+  | ["C", lo, hi, f, g] => do
+      let lo ← parseNat lo; let hi ← parseNat hi; let f ← parseOcc f; let g ← parseOcc g
+      pure ⟨.complete lo hi, f, g⟩
+  | ["P", lo, hi, l, f, g] => do
+      let lo ← parseNat lo; let hi ← parseNat hi; let l ← parseNat l; let f ← parseOcc f; let g ← parseOcc g
+      pure ⟨.part lo hi l, f, g⟩
+  | _ => none
+
+def showExpected (t p : List Nat) : String :=
+  let m := longestSuf p t p.length
+  if m = 0 then "A"
+  else if m = p.length then "C:" ++ showNatList (occurrences p t)
+  else "P:" ++ toString m ++ ":" ++ showNatList (occurrences (suffix p m) t)
+
+/-- `none` = fine, `some reason` otherwise -/
+def checkOne (t sa p : List Nat) (o : Obs) : Option String :=
+  if !checkBS t sa p o.res then some "result" else
+  let q := match o.res with
+    | .complete _ _ => p
+    | .part _ _ l => suffix p l
+    | .absent => []
+  match o.res with
+  | .absent => none
+  | _ =>
+    match o.full, o.samp with
+    | some f, some g =>
+      if !sameSet f (occurrences q t) then some "occ-through-full-array"
+      else if !sameSet g (occurrences q t) then some "occ-through-sampled-array"
+      else none
+    | _, _ => some "interval-outside-array"
+
+def firstBad (t sa : List Nat) : List (List Nat) → List Obs → Nat → Option String
+  | p :: ps, o :: os, i =>
+    match checkOne t sa p o with
+    | some r => some ("pattern#" ++ toString i ++ ":" ++ r ++ " expected:" ++ showExpected t p)
+    | none => firstBad t sa ps os (i + 1)
+  | _, _, _ => none
+
+def kindTag : BSRes → String
+  | .complete _ _ => "complete"
+  | .part _ _ _ => "partial"
+  | .absent => "absent"
+
+def tagIf (b : Bool) (s : String) : String := if b then " " ++ s else ""
+
+def verdict (toks : List String) (out : String) : String :=
+  match toks with
+  | [ss, a, k, s, m, ps] =>
+    match parseListNE parseHex ss '/', parseListNE parseHex ps '/', field a, field k, field s, field m with
+    | some seqs, some pats, some ("a", _), some ("k", kv), some ("s", sv), some ("m", mv) =>
+      match parseNat kv, parseNat sv with
+      | some kN, some sN =>
+        if pats.any (·.isEmpty) then "bad-op empty-pattern" else
+        if out.startsWith "PANIC" || out.startsWith "HANG" || out.startsWith "CRASH" then "reject " ++ out else
+        let t := textOf seqs
+        match out.splitOn " " with
+        | [sas, rs] =>
+          match parseNatList sas, parseListNE parseRes rs '/' with
+          | some sa, some obs =>
+            if sa.length ≠ t.length then "reject suffix-array-length" else
+            if obs.length ≠ pats.length then "reject arity" else
+            match firstBad t sa pats obs 0 with
+            | some r => "reject " ++ r
+            | none =>
+              let kinds := obs.map (fun o => kindTag o.res)
+              let nt := (pats.zip obs).any (fun (p, o) => p.length ≥ 2 && o.res != .absent)
+              "ok" ++ tagIf nt "nt" ++ tagIf (kinds.contains "complete") "complete"
+                ++ tagIf (kinds.contains "partial") "partial" ++ tagIf (kinds.contains "absent") "absent"
+                ++ tagIf (seqs.length ≥ 2) "multi-sentinel" ++ tagIf (seqs.any (·.isEmpty)) "empty-seq"
+                ++ tagIf (kN > 64) "k>64" ++ tagIf (kN = 64) "k=64" ++ tagIf (kN < 64) "k<64"
+                ++ tagIf (kN ≥ t.length) "k>=n" ++ tagIf (sN > 1) "sampled" ++ " m:" ++ mv
+                ++ tagIf (pats.any (fun p => p.length > t.length)) "longer-than-text"
+                ++ tagIf (obs.any (fun o => match o.full with | some f => f.length ≥ 2 | none => false)) "multi-occ"
+                ++ tagIf (t.length > 130) "n>130"
+          | _, _ => "bad-op output"
+        | _ => "bad-op output-arity"
+      | _, _ => "bad-op rates"
+    | _, _, _, _, _, _ => "bad-op parse"
+  | _ => "bad-op arity"
 
 end RbV.Drv.C05
